@@ -45,6 +45,17 @@ def F_IN_CLUSTER(cluster_name):
 F = _define("f", "1")
 FF = _define("ff", "1")
 
+
+
+def _g2(x, y, z=None):
+    return (x, y, z)
+
+
+_g2.__name__ = _g2.__qualname__ = "g2"
+_g2.__module__ = MOD_NAME
+G2 = m.MementoFunction(_g2, version="1", auto_dependencies=False)
+mod.g2 = G2
+
 # function references: f#1, f#10 (same function, version 1 vs 10), ff#1 (name has f as prefix)
 REF_F1 = F.fn_reference()
 REF_F10 = FunctionReference(F, version="10")
@@ -81,6 +92,13 @@ CACHE_KEYS = [r.qualified_name + "/" + h for (r, _x), h in zip(CALLS, HASHES)]
 CALLS4 = CALLS + [(REF_FF1, 1)]
 HASHES4 = [fwa(r, x).arg_hash for (r, x) in CALLS4]
 CACHE_KEYS4 = [r.qualified_name + "/" + h for (r, _x), h in zip(CALLS4, HASHES4)]
+# pre-warm memento's dotted-names cache natively for the fixture functions (modifier clones re-scan the source)
+from twosigma.memento.code_hash import list_dotted_names as _ldn  # noqa: E402
+
+for _mf in (F, FF, G2):
+    _ldn(_mf.src_fn)
+_ldn(_plain_f)
+
 MEMENTOS4 = [make_memento(r, x) for (r, x) in CALLS4]
 NEW_MEMENTOS4 = [make_memento(r, x) for (r, x) in CALLS4]
 
